@@ -19,31 +19,6 @@ fn opt_eq(got: &Option<Vec<u8>>, want: Option<&Buf>) -> bool {
     }
 }
 
-// ------------------------------------------------------------------ C05 accessors
-/// get_by_index / array_length on arrays of <= 3 elements (scalars with payload <= 2 bytes, or
-/// nested containers with <= 1 member), every index 0..=4
-#[kani::proof]
-#[kani::unwind(70)]
-#[kani::stub(crate::parser::parse_value, no_text)]
-fn kb_get_by_index() {
-    let items = [any_elem(2), any_elem(2), any_elem(2)];
-    let n: usize = kani::any();
-    kani::assume(n <= 3);
-    let doc = layout_array(&items[..n]);
-    let idx: usize = kani::any();
-    kani::assume(idx <= 4);
-    kani::cover!(n == 3 && idx == 2 && items[1].plen > 0);
-    let got = get_by_index(doc.as_slice(), idx);
-    if idx < n {
-        let want = items[idx].doc();
-        assert!(opt_eq(&got, Some(&want)));
-    } else {
-        assert!(got.is_none());
-    }
-    assert!(array_length(doc.as_slice()) == Some(n));
-}
-
-
 // ------------------------------------------------------------------ leaf contracts (complete)
 /// [K leaf] the private read_u32 of functions.rs against its injected contract
 /// (Ok(be32(buf, idx)) iff idx + 4 <= len, else Err); slice length <= 12, idx arbitrary <= usize::MAX - 4
@@ -57,18 +32,13 @@ fn leaf_read_u32_functions() {
 }
 
 // ------------------------------------------------------------------ C04 compare (bounded twin of unit cmp)
+// Concrete shapes (all offsets constant), symbolic contents.  Several width profiles so that equal values of different
+// widths (1 as Int64: 2 bytes, 1.0 as Float64: 9 bytes) sit in front of further elements.
 fn ord_i8(o: std::cmp::Ordering) -> i8 {
     match o { std::cmp::Ordering::Less => -1, std::cmp::Ordering::Equal => 0, std::cmp::Ordering::Greater => 1 }
 }
 
-/// arrays of exactly two scalars from the menu of crate::verif_kani_spec::any_sc (equal numbers come in
-/// encodings of different widths): compare == lexicographic order of the element values, and is antisymmetric
-#[kani::proof]
-#[kani::unwind(40)]
-#[kani::stub(crate::parser::parse_value, no_text)]
-fn kb_compare_arrays2() {
-    let a = [any_sc(), any_sc()];
-    let b = [any_sc(), any_sc()];
+fn check_compare2(a: [Sc; 2], b: [Sc; 2]) {
     let da = layout_array(&[a[0].it, a[1].it]);
     let db = layout_array(&[b[0].it, b[1].it]);
     let want = { let c = sc_cmp(&a[0], &b[0]); if c != 0 { c } else { sc_cmp(&a[1], &b[1]) } };
@@ -77,53 +47,91 @@ fn kb_compare_arrays2() {
     assert!(ord_i8(r.unwrap()) == want);
     let r2 = compare(db.as_slice(), da.as_slice());
     assert!(r2.is_ok() && ord_i8(r2.unwrap()) == -want);
-    kani::cover!(want == 0 && a[0].it.plen != b[0].it.plen);
 }
 
-// ------------------------------------------------------------------ C05 accessors (bounded twins of units walk/walk2/acc)
-/// arrays of exactly 3 scalars from the menu: get_by_index for every index 0..=4, array_length, array_values length
+/// [float9, w2] against [num2, w2]: equal first elements of different widths, then a deciding second element
+#[kani::proof]
+#[kani::unwind(34)]
+#[kani::stub(crate::parser::parse_value, no_text)]
+fn kb_compare_f9_n2() {
+    check_compare2([sc_float9(), sc_w2()], [sc_num2(), sc_w2()]);
+}
+
+/// [w2, w0] against [w2, str1]
+#[kani::proof]
+#[kani::unwind(34)]
+#[kani::stub(crate::parser::parse_value, no_text)]
+fn kb_compare_w2_w0() {
+    check_compare2([sc_w2(), sc_w0()], [sc_w2(), sc_str1()]);
+}
+
+/// nested: [[float9, num2]] against [[num2, num2]] and object-vs-array ranking inside arrays
 #[kani::proof]
 #[kani::unwind(40)]
 #[kani::stub(crate::parser::parse_value, no_text)]
-fn kb_get_by_index3() {
-    let a = [any_sc(), any_sc(), any_sc()];
-    let doc = layout_array(&[a[0].it, a[1].it, a[2].it]);
+fn kb_compare_nested() {
+    let a = [sc_float9(), sc_num2()];
+    let b = [sc_num2(), sc_num2()];
+    let da = layout_array(&[it_array(&[a[0].it, a[1].it])]);
+    let db = layout_array(&[it_array(&[b[0].it, b[1].it])]);
+    let want = { let c = sc_cmp(&a[0], &b[0]); if c != 0 { c } else { sc_cmp(&a[1], &b[1]) } };
+    let r = compare(da.as_slice(), db.as_slice());
+    assert!(r.is_ok() && ord_i8(r.unwrap()) == want);
+    // kinds: Array > Object inside an enclosing array, and a null element is greater than any container
+    let k = key1();
+    let dobj = layout_array(&[it_object(&[k], &[b[0].it])]);
+    assert!(compare(da.as_slice(), dobj.as_slice()) == Ok(std::cmp::Ordering::Greater));
+    assert!(compare(dobj.as_slice(), da.as_slice()) == Ok(std::cmp::Ordering::Less));
+    let dnull = layout_array(&[sc_null().it]);
+    assert!(compare(dnull.as_slice(), da.as_slice()) == Ok(std::cmp::Ordering::Greater));
+}
+
+// ------------------------------------------------------------------ C05 accessors (bounded twins of units walk/walk2/acc)
+/// arrays [w2, float9, w0|str1, str2]: get_by_index for every index 0..=5, array_length
+#[kani::proof]
+#[kani::unwind(34)]
+#[kani::stub(crate::parser::parse_value, no_text)]
+fn kb_get_by_index4() {
+    let a = [sc_w2(), sc_float9(), sc_str1(), sc_str2()];
+    let doc = layout_array(&[a[0].it, a[1].it, a[2].it, a[3].it]);
     let idx: usize = kani::any();
-    kani::assume(idx <= 4);
+    kani::assume(idx <= 5);
     let got = get_by_index(doc.as_slice(), idx);
-    if idx < 3 {
+    if idx < 4 {
         let want = a[idx].it.doc();
         assert!(opt_eq(&got, Some(&want)));
     } else {
         assert!(got.is_none());
     }
-    assert!(array_length(doc.as_slice()) == Some(3));
+    assert!(array_length(doc.as_slice()) == Some(4));
 }
 
-/// objects with exactly 2 members (keys: sorted distinct ASCII strings of 1..=2 bytes, values: scalars from the menu):
-/// get_by_name exact and ignore-case against the member list
+/// objects {k1: w2, k2: float9, k2': str1} with keys of widths 1,2,2 (sorted, distinct): get_by_name exact / ignore-case
 #[kani::proof]
-#[kani::unwind(40)]
+#[kani::unwind(34)]
 #[kani::stub(crate::parser::parse_value, no_text)]
-fn kb_get_by_name2() {
-    let k = [any_key(2), any_key(2)];
-    kani::assume(k[0].plen >= 1 && k[1].plen >= 1 && key_lt(&k[0], &k[1]));
-    let v = [any_sc(), any_sc()];
-    let doc = layout_object(&[k[0], k[1]], &[v[0].it, v[1].it]);
-    // the name looked up: one of the keys, possibly with the case of its first byte flipped, or a fresh string
-    let name_it = any_key(2);
-    kani::assume(name_it.plen >= 1);
+fn kb_get_by_name3() {
+    let k = [key1(), key2(), key2()];
+    kani::assume(key_lt(&k[0], &k[1]) && key_lt(&k[1], &k[2]));
+    let v = [sc_w2(), sc_float9(), sc_str1()];
+    let doc = layout_object(&k, &[v[0].it, v[1].it, v[2].it]);
+    let two: bool = kani::any();
+    let name_it = if two { key2() } else { key1() };
     let name = std::str::from_utf8(name_it.payload()).unwrap();
     let ic: bool = kani::any();
-    let eq = |a: &It, b: &It| a.plen == b.plen && a.pay[0] == b.pay[0] && (a.plen < 2 || a.pay[1] == b.pay[1]);
     let lower = |c: u8| if c >= b'A' && c <= b'Z' { c + 32 } else { c };
+    let eq = |a: &It, b: &It| a.plen == b.plen && a.pay[0] == b.pay[0] && (a.plen < 2 || a.pay[1] == b.pay[1]);
     let eq_ic = |a: &It, b: &It| a.plen == b.plen && lower(a.pay[0]) == lower(b.pay[0]) && (a.plen < 2 || lower(a.pay[1]) == lower(b.pay[1]));
-    let want: Option<usize> = if eq(&k[0], &name_it) { Some(0) } else if eq(&k[1], &name_it) { Some(1) }
-        else if ic && eq_ic(&k[0], &name_it) { Some(0) } else if ic && eq_ic(&k[1], &name_it) { Some(1) } else { None };
+    let mut want: Option<usize> = None;
+    let mut j = 0;
+    while j < 3 { if want.is_none() && eq(&k[j], &name_it) { want = Some(j); } j += 1; }
+    if want.is_none() && ic {
+        j = 0;
+        while j < 3 { if want.is_none() && eq_ic(&k[j], &name_it) { want = Some(j); } j += 1; }
+    }
     let got = get_by_name(doc.as_slice(), name, ic);
     match want {
         Some(j) => { let w = v[j].it.doc(); assert!(opt_eq(&got, Some(&w))); }
         None => assert!(got.is_none()),
     }
-    kani::cover!(want == Some(1) && ic && !eq(&k[1], &name_it));
 }
